@@ -127,7 +127,7 @@ def reopen_on(files, default, rules):
         import pathlib
 
         folder = pathlib.PurePosixPath("/idx")
-    t = Traph(folder=folder, default_webentity_creation_rule=default, webentity_creation_rules=dict(rules))
+    t = Traph(folder=folder, encoding=O.ENCODING[0], default_webentity_creation_rule=default, webentity_creation_rules=dict(rules))
     return t, d
 
 
